@@ -361,6 +361,8 @@ def extra(tier, seed):
                           bound='histories of write_pickle/write_html/write_latex/write_f12/dump_on_file/generate_flat_panel_dataframe in one '
                                 'directory: all of length <= ' + ('3' if tier == 'thorough' else '2') + ', each operation repeated up to 5 times, '
                                 + ('100' if tier == 'thorough' else '6') + ' random histories of length 5; empty and pre-populated directory'))
+    out.append(run_native('C14:bounded:recycled-results-are-those-of-the-same-model', 'c14_recycle.py', [],
+                          bound='3 pairs of model names sharing a prefix, both orders of estimation: files_of_type lists only own files, estimate(recycle=True) returns own estimates'))
     out.append(run_native('C14:bounded:pickle-round-trip', 'c14_native.py', ['pickle', t, s],
                           bound=('100' if tier == 'thorough' else '8') + ' generated results objects (K in 1..4, with/without null model and bootstrap, '
                                 'singular Hessian): raw data, statistics, estimates and reports after write_pickle + bioResults(pickle_file)'))
